@@ -12,12 +12,6 @@ variable {σ κ : Type} [DecidableEq σ] [DecidableEq κ] (c : Cfg σ κ)
 /-- largest sub-account field for which one more operation cannot wrap: 2^63-1 - 10^17. -/
 def cap : Int := 9123372036854775807
 
-/-- the two account arguments of an exec-internal transfer are not spellings of one account. -/
-def NoAlias (c : Cfg σ κ) : Op σ → Prop
-  | .execTransfer f t _ _ => c.norm f ≠ c.norm t
-  | .execTransferFrozen f t _ _ => c.norm f ≠ c.norm t
-  | _ => True
-
 /-- intended change of `deficit · e'` by a successful operation. -/
 def opDeficit (c : Cfg σ κ) (e' : σ) : Op σ → Int
   | .transfer f t amt =>
@@ -153,9 +147,9 @@ theorem loadSub_after_save_ne {s : State σ κ} (hw : WF c s) (f t e : σ) (hne 
   intro h; exact hne (Prod.mk.inj h).2
 
 theorem execTransfer_subSum {s : State σ κ} (hw : WF c s) (hs : SubB cap s.sub) (f t e : σ) (amt : Int)
-    (hne : c.norm f ≠ c.norm t) (hok : (execTransfer c s f t e amt).2 = .ok) (e' : σ) :
+    (hok : (execTransfer c s f t e amt).2 = .ok) (e' : σ) :
     subSum e' (execTransfer c s f t e amt).1 = subSum e' s := by
-  rcases execTransfer_cases c s f t e amt with hf | ⟨_, h1, h2, he⟩
+  rcases execTransfer_cases c s f t e amt with hf | ⟨_, hne, h1, h2, he⟩
   · exact absurd hok (not_ok_of_failed hf)
   · rw [he]; rw [checkAmount_iff] at h1
     obtain ⟨a1, a2, a3, a4⟩ := subB_load c hs (by decide) f e
@@ -173,9 +167,9 @@ theorem execTransfer_subSum {s : State σ κ} (hw : WF c s) (hs : SubB cap s.sub
     rw [e2, e1]; split <;> omega
 
 theorem execTransferFrozen_subSum {s : State σ κ} (hw : WF c s) (hs : SubB cap s.sub) (f t e : σ)
-    (amt : Int) (hne : c.norm f ≠ c.norm t) (hok : (execTransferFrozen c s f t e amt).2 = .ok) (e' : σ) :
+    (amt : Int) (hok : (execTransferFrozen c s f t e amt).2 = .ok) (e' : σ) :
     subSum e' (execTransferFrozen c s f t e amt).1 = subSum e' s := by
-  rcases execTransferFrozen_cases c s f t e amt with hf | ⟨_, h1, h2, he⟩
+  rcases execTransferFrozen_cases c s f t e amt with hf | ⟨_, hne, h1, h2, he⟩
   · exact absurd hok (not_ok_of_failed hf)
   · rw [he]; rw [checkAmount_iff] at h1
     obtain ⟨a1, a2, a3, a4⟩ := subB_load c hs (by decide) f e
@@ -192,13 +186,38 @@ theorem execTransferFrozen_subSum {s : State σ κ} (hw : WF c s) (hs : SubB cap
       ⟨(loadSub c s t e).addr, (loadSub c s t e).bal + amt, (loadSub c s t e).frz⟩) = _
     rw [e2, e1]; split <;> omega
 
-/-- **The defect, for every state**: when `from` and `to` are two spellings of one account
-(`norm from = norm to`, `from ≠ to`) a successful `ExecTransfer` raises the sub-ledger total of
-the exec address by `amount` (credit without debit). -/
-theorem execTransfer_alias_subSum {s : State σ κ} (hw : WF c s) (hs : SubB cap s.sub) (f t e : σ)
-    (amt : Int) (heq : c.norm f = c.norm t) (hok : (execTransfer c s f t e amt).2 = .ok) :
-    subSum e (execTransfer c s f t e amt).1 = subSum e s + amt := by
-  rcases execTransfer_cases c s f t e amt with hf | ⟨_, h1, h2, he⟩
+/-- `ExecTransfer` as it was before repo commit 3bc3d2b: only the *spellings* were compared. -/
+def execTransferOld (c : Cfg σ κ) (s : State σ κ) (src dst e : σ) (amt : Int) : State σ κ × Res :=
+  if src = dst then (s, .errSame) else
+  if !checkAmount amt then (s, .errAmount) else
+  let F := loadSub c s src e
+  let T := loadSub c s dst e
+  if wrap (F.bal - amt) < 0 then (s, .errNoBalance) else
+  (saveSub c (saveSub c s e { F with bal := wrap (F.bal - amt) }) e
+      { T with bal := wrap (T.bal + amt) }, .ok)
+
+theorem execTransferOld_cases (s : State σ κ) (f t e : σ) (amt : Int) :
+    Failed (execTransferOld c s f t e amt) s ∨
+    (f ≠ t ∧ checkAmount amt = true ∧ 0 ≤ wrap ((loadSub c s f e).bal - amt) ∧
+      execTransferOld c s f t e amt =
+        (saveSub c (saveSub c s e { loadSub c s f e with bal := wrap ((loadSub c s f e).bal - amt) }) e
+          { loadSub c s t e with bal := wrap ((loadSub c s t e).bal + amt) }, .ok)) := by
+  unfold execTransferOld Failed
+  by_cases h0 : f = t
+  · left; simp [h0, Res.isErr]
+  · by_cases h1 : checkAmount amt = true
+    · by_cases h2 : wrap ((loadSub c s f e).bal - amt) < 0
+      · left; simp [h0, h1, h2, Res.isErr]
+      · right; exact ⟨h0, h1, by omega, by simp [h0, h1, h2]⟩
+    · left; simp [h0, h1, Res.isErr]
+
+/-- Regression witness about the OLD guard, for every state: when `from` and `to` are two
+spellings of one account (`norm from = norm to`, `from ≠ to`) a successful old `ExecTransfer`
+raises the sub-ledger total of the exec address by `amount` (credit without debit). -/
+theorem execTransferOld_alias_subSum {s : State σ κ} (hw : WF c s) (hs : SubB cap s.sub) (f t e : σ)
+    (amt : Int) (heq : c.norm f = c.norm t) (hok : (execTransferOld c s f t e amt).2 = .ok) :
+    subSum e (execTransferOld c s f t e amt).1 = subSum e s + amt := by
+  rcases execTransferOld_cases c s f t e amt with hf | ⟨_, h1, h2, he⟩
   · exact absurd hok (not_ok_of_failed hf)
   · rw [he]; rw [checkAmount_iff] at h1
     obtain ⟨a1, a2, a3, a4⟩ := subB_load c hs (by decide) f e
@@ -234,10 +253,9 @@ theorem subB_of_sub_eq {s s' : State σ κ} {B : Int} (h : s'.sub = s.sub) (hs :
 
 /-- Exact change of the exec equation by one successful operation, for every exec address `e'`:
 the state is well formed, the main ledger within bounds, every sub-account field at most `cap`
-(so nothing wraps), genesis grants non-negative, and an exec-internal transfer does not name one
-account by two spellings. -/
+(so nothing wraps), and genesis grants non-negative. -/
 theorem deficit_step {s : State σ κ} (hw : WF c s) (hm : MainOK s) (hs : SubB cap s.sub)
-    (op : Op σ) (hop : GenesisOK op) (hna : NoAlias c op) (hok : (step c s op).2 = .ok) (e' : σ) :
+    (op : Op σ) (hop : GenesisOK op) (hok : (step c s op).2 = .ok) (e' : σ) :
     deficit c (step c s op).1 e' = deficit c s e' + opDeficit c e' op := by
   simp only [deficit_eq]
   cases op with
@@ -320,12 +338,12 @@ theorem deficit_step {s : State σ κ} (hw : WF c s) (hm : MainOK s) (hs : SubB 
     simp [opDeficit]
   | execTransfer f t e amt =>
     simp only [step] at hok ⊢
-    rw [mb_of_main_eq c (main_execTransfer c s f t e amt), execTransfer_subSum c hw hs f t e amt hna hok e']
+    rw [mb_of_main_eq c (main_execTransfer c s f t e amt), execTransfer_subSum c hw hs f t e amt hok e']
     simp [opDeficit]
   | execTransferFrozen f t e amt =>
     simp only [step] at hok ⊢
     rw [mb_of_main_eq c (main_execTransferFrozen c s f t e amt),
-      execTransferFrozen_subSum c hw hs f t e amt hna hok e']
+      execTransferFrozen_subSum c hw hs f t e amt hok e']
     simp [opDeficit]
   | execDepositFrozen a e amt =>
     simp only [step, execDepositFrozen] at hok ⊢
